@@ -4,7 +4,13 @@
 (*                                                                         *)
 (* Part 1  nested result dictionaries.  Python values are                   *)
 (*   [k |-> "int"|"float"|"bool", n, d]      scalars (exact rationals n/d)  *)
-(*   [k |-> "str", v]                        strings (ASCII, <= 64 chars)   *)
+(*   [k |-> "str", v]                        strings over the whole value   *)
+(*        alphabet: ASCII, the empty string, spaces / newlines, accents,    *)
+(*        typographic quotes, the micro sign ...  A character outside        *)
+(*        printable ASCII is written as the token <U+XXXX> (its code point); *)
+(*        the binding translates tokens <-> characters one to one, so Store  *)
+(*        / Canon being the identity on v means "every character survives". *)
+(*        Entries of string lists are at most 64 bytes of UTF-8 (S64).      *)
 (*   [k |-> "arr", dt, shape, data]          numpy arrays (row-major data)  *)
 (*   [k |-> "list"|"tuple", items]           sequences                       *)
 (*   [k |-> "dict", items]                   items: function name -> value  *)
@@ -147,6 +153,43 @@ TauKeys(binner, size) ==
     \cup (IF size \in {"heavy", "light"} /\ binner # "native" THEN {"binned_tau"} ELSE {})
 SpectrumKeys(binner, size) == NativeKeys \cup (IF binner = "native" THEN {} ELSE BinnedKeys) \cup TauKeys(binner, size)
 SpectrumTable == {[binner |-> b, size |-> s, keys |-> SpectrumKeys(b, s)] : b \in Binners, s \in Sizes}
+
+\* Every place where the requested output size is consumed.  Callers:
+\*   "direct"        binner.generate_spectrum_output(result, output_size)         -> the dictionary itself
+\*   "contributions" util.output.store_contributions(binner, model, output_size)  -> one block per contribution
+\*                   and, nested in it, one per component of the contribution
+\*   "program"       the taurex program (taurex.py main): Output/Spectra (Output/Priors/Spectra after a retrieval)
+\*                   with the nested Contributions block
+\*   "optimizer"     Optimizer.generate_solution: Output/Solutions/solution<k>/Spectra with its Contributions
+\* The program and the optimizer store the per-contribution blocks ONE STEP LIGHTER than the run (heavy run:
+\* binned optical depths only; light and lighter runs: none); a lighter run holds no optical depth anywhere and a
+\* light run no native one.
+Callers == {"direct", "contributions", "program", "optimizer"}
+Places  == {"Spectra", "Contribution", "Component"}
+PlacesOf(caller) == IF caller = "direct" THEN {"Spectra"}
+                    ELSE IF caller = "contributions" THEN {"Contribution", "Component"} ELSE Places
+StepLighter(size) == IF size = "heavy" THEN "light" ELSE "lighter"
+PlaceSize(caller, place, size) == IF place = "Spectra" \/ caller = "contributions" THEN size ELSE StepLighter(size)
+TauAt(caller, place, binner, size) == TauKeys(binner, PlaceSize(caller, place, size))
+TauTable == {[caller |-> c, place |-> p, binner |-> b, size |-> s, tau |-> TauAt(c, p, b, s)] :
+             c \in Callers, p \in Places, b \in Binners, s \in Sizes} 
+TauRows == {r \in TauTable : r.place \in PlacesOf(r.caller)}
+\* firm reading of the three sizes, whatever the caller: nothing in a lighter run, nothing native below heavy
+SizeBounds == \A r \in TauRows : /\ (r.size = "lighter" => r.tau = {})
+                                 /\ (r.size # "heavy" => "native_tau" \notin r.tau)
+                                 /\ (r.place # "Spectra" /\ r.caller # "contributions" => "native_tau" \notin r.tau)
+
+\* The callers hand the size on as an INTEGER (OutputSize is an IntEnum: heavy 6, light 3, lighter 1; the program
+\* and the optimizer pass  size - 3  for the contribution blocks, i.e. 3, 0, -2).  How the binner decides from the
+\* integer r it receives:  "order" = ordering comparisons (r > light, r > lighter), "identity" = tests for being
+\* one particular member.  SizeArith: the decision on the integer implements TauAt.
+SizeVal(size) == CASE size = "heavy" -> 6 [] size = "light" -> 3 [] size = "lighter" -> 1
+RequestInt(caller, place, size) == IF place = "Spectra" \/ caller = "contributions" THEN SizeVal(size) ELSE SizeVal(size) - 3
+TauByInt(test, binner, r) ==
+    IF test = "order"
+    THEN (IF r > 3 THEN {"native_tau"} ELSE {}) \cup (IF r > 1 /\ binner # "native" THEN {"binned_tau"} ELSE {})
+    ELSE (IF r = 6 THEN {"native_tau"} ELSE {}) \cup (IF r # 1 /\ binner # "native" THEN {"binned_tau"} ELSE {})
+SizeArithOf(test) == \A r \in TauRows : TauByInt(test, r.binner, RequestInt(r.caller, r.place, r.size)) = r.tau
 
 \* exact grid relations (per bin, exact rationals): wl = 10000/wn ; wlwidth = 10000*wnwidth/wn^2
 WlOf(wn) == RDiv(Q(10000), wn)
